@@ -3,6 +3,7 @@
 SPECIFICATION Spec
 CONSTANTS
   IfaceDeep = TRUE
+  EmptyDeep = TRUE
   ExactSize = TRUE
   RedactOnCopy = FALSE
   MaxMut = 0
